@@ -471,7 +471,7 @@ func e2e(c *cfg, r *hx.Rng, emit func(map[string]interface{}), nObs *int) {
 	var srcs []src
 	db := 0
 	alpha := []byte{'a', 'b', 0xff, 0xfe, '{', '}'}
-	reserved := [][]byte{[]byte("redis-gunyu-checkpoint"), []byte("/redis-gunyu")}
+	reserved := [][]byte{[]byte("redis-gunyu-checkpoint"), []byte("/redis-gunyu"), []byte("redis-gunyu-bisync:")}
 	for j := 0; j < 14; j++ {
 		// a replication stream always states its database before the first command
 		if j == 0 || r.Chance(20) {
@@ -495,7 +495,7 @@ func e2e(c *cfg, r *hx.Rng, emit func(map[string]interface{}), nObs *int) {
 				}
 				k = append(k, []byte(strconv.Itoa(r.Intn(50)))...)
 				if r.Chance(8) {
-					k = append(append([]byte{}, reserved[r.Intn(2)]...), k...)
+					k = append(append([]byte{}, reserved[r.Intn(len(reserved))]...), k...)
 				}
 				keys[x] = k
 				if !uniq[string(k)] {
